@@ -1,6 +1,6 @@
 import LentilVerif.Lemmas.Spectrum
 import LentilVerif.Lemmas.Units
-import LentilVerif.Model.SpecArith
+import LentilVerif.Lemmas.SpecArith
 /-! C13 — spectrum arithmetic is pointwise, commutative, unit-agnostic. Statements about `Model/SpecArith.lean`
 (tied to `Spectrum._ufunc` / `_interp_common` by the correspondence), for every binary operator `op`. -/
 namespace Lentil.C13
@@ -76,10 +76,6 @@ theorem grid_spans_union_end (mn mx dw : ℚ) (h : 1 ≤ (gridNum mn mx dw).toNa
   field_simp
   ring
 
-theorem samplingOf_swap (m : Sampling) (w1 w2 : List ℚ) : samplingOf m.swap w2 w1 = samplingOf m w1 w2 := by
-  cases m <;> simp only [Sampling.swap, samplingOf]
-  cases minDiff w1 <;> cases minDiff w2 <;> simp [min_comm]
-
 /-- commutativity: for every commutative operator (addition, multiplication) `a ∘ b = b ∘ a`, with `left`↔`right`
 sampling swapped accordingly -/
 theorem op_comm (op : ℚ → ℚ → ℚ) (hc : ∀ a b, op a b = op b a) (s1 s2 : Spectrum) (m : Sampling) (fill : ℚ) :
@@ -108,10 +104,6 @@ theorem scalar_vector_elementwise (op : ℚ → ℚ → ℚ) (s : Spectrum) (c :
     ufuncVector op s v = .ok ⟨s.wave, List.zipWith op s.value v⟩ := by
   refine ⟨rfl, rfl, ?_⟩
   simp [ufuncVector, hv]
-
-theorem toWave_self (s : USpec) : toWave s.wu s = s := by
-  cases s with
-  | mk wave value wu vu => cases vu <;> simp [toWave, waveTo_self]
 
 /-- Tᵖ (unit hand-over): the operation sees the right operand in the left operand's unit — giving it in any unit is the
 same as giving it already converted — and the result carries the left operand's units. Gap (oracle only): the full
